@@ -305,3 +305,6 @@ OUTSIDE = ["byte CONTENT (abstracted to provenance; the complement table is C14'
            "end-to-end through the CLI is exercised in replays (real files) and in C16's harness, not symbolically here"]
 TRUSTED = ["CrossHair/z3", "provenance model of bytes (vlib/h/fasta.py): SegIO for io.BytesIO, FH for the FASTA file handle, GapChar for the gap character",
            "FastaIndex/FastaInfo built with object.__new__ (their constructors only store fields)"]
+
+TECHNIQUE = ("symbolic execution (CrossHair + z3) of sequence_bytes / chunk iterators / FastaStream.write_scaffold / write_assembly over a provenance model of bytes: every offset, chunk and wrap decision symbolic")
+LEVEL_TEXT = ("Offsets, line widths, buffer sizes, output line lengths and intervals are symbolic; the oracle checks that the emitted segments enumerate exactly the expected residue indices with the right orientation and wrapping.")
